@@ -131,8 +131,9 @@ pub fn get_key_value_new(key: &String, db: &Database) -> Response {
     crate::verif::point("db.map:get_key_value");
     let db = db.map.read().unwrap();
     let (value, version) = match db.get(&key.to_string()) {
-        Some(value) => (value.to_string(), value.version),
-        None => (String::from("<Empty>"), 1 as i32),
+        Some(value) if value.state != ValueStatus::Deleted => (value.to_string(), value.version),
+        // absent, or removed and waiting for the next snapshot: the same answer
+        _ => (String::from("<Empty>"), 1 as i32),
     };
     Response::Value {
         key: key.clone(),
